@@ -100,6 +100,25 @@ class CholLinearOperator(RootLinearOperator):
         # Rows/columns of the factor are no longer a Cholesky factor of the selected block
         return self._as_root_linear_operator()._getitem(row_index, col_index, *batch_indices)
 
+    def _mul_constant(
+        self: Float[LinearOperator, "*batch M N"], other: Union[float, torch.Tensor]
+    ) -> Float[LinearOperator, "*batch M N"]:
+        if (other > 0).all():
+            return self.__class__(self.root._mul_constant(other.sqrt()), upper=self.upper)
+        return LinearOperator._mul_constant(self, other)
+
+    def root_decomposition(
+        self: Float[LinearOperator, "*batch N N"], method: Optional[str] = None
+    ) -> Float[LinearOperator, "*batch N N"]:
+        # consumers read `.root` of the result and expect root @ root^T == self
+        return self._as_root_linear_operator() if self.upper else self
+
+    def _root_decomposition(
+        self: Float[LinearOperator, "... N N"]
+    ) -> Union[Float[torch.Tensor, "... N N"], Float[LinearOperator, "... N N"]]:
+        # a matrix X with X X^T = A: L for L L^T, R^T for R^T R
+        return self.root._transpose_nonbatch() if self.upper else self.root
+
     def _solve(
         self: Float[LinearOperator, "... N N"],
         rhs: Float[torch.Tensor, "... N C"],
